@@ -101,7 +101,7 @@ func ruleReadOffsetPairing(w *core.World, r *core.Report, f *ssa.Function) {
 	bad := ""
 	var badPos token.Pos
 	paths := 0
-	okEnum := core.EnumPathsN(f.Blocks[0], 0, 100000, 2, func(p *core.Path) {
+	okEnum := core.EnumPathsN(f.Blocks[0], 0, 100000, core.Unroll, func(p *core.Path) {
 		if _, isRet := p.End.(*ssa.Return); !isRet || bad != "" {
 			return
 		}
